@@ -6,7 +6,7 @@ KEY_DTYPES = ["int64", "int64", "int32", "uint64", "int16", "uint8"]
 
 
 def key_set(rng, dtype):
-    n = rng.choice([1, 1, 2, 3, 4, 5, 6, 8])
+    n = rng.choice([1, 1, 2, 3, 4, 5, 6, 8, 8, 12, 24, 48])
     info = np.iinfo(dtype)
     pool = set()
     style = rng.choice(["small", "small", "mixed", "big", "collide"])
@@ -14,9 +14,9 @@ def key_set(rng, dtype):
     while len(pool) < n and tries < 1000:
         tries += 1
         if style == "small":
-            k = rng.randint(0, 30)
+            k = rng.randint(0, 30 + 3 * n)
         elif style == "collide":
-            k = rng.randint(0, 4) * 7 + 3        # many keys share buckets for mod 7
+            k = rng.randint(0, 4 + n) * 7 + 3    # many keys share buckets for mod 7
         elif style == "big":
             k = rng.choice([info.max, info.max - 1, info.min, 2 ** 62, -(2 ** 62), 2 ** 62 + 1]) - rng.randint(0, 3) * rng.choice([0, 1])
         else:
@@ -32,9 +32,16 @@ def pick_mod(rng, n):
     return rng.choice([None, None, 1, 2, 3, 7, n, 2 * n - 1, 1000, n + 1])
 
 
-def absent_keys(rng, keys, dtype, mod):
+def absent_keys(rng, keys, dtype, mod, wide=False):
+    """wide=True: the queries will be int64 arrays on a table with a narrower key dtype; absent keys then include
+    values outside the key dtype that are congruent to a present key modulo 2**bits (a C cast would alias them)"""
     info = np.iinfo(dtype)
     out = []
+    if wide:
+        span = 2 ** info.bits
+        for k in keys[:4]:
+            out += [int(k + span), int(k - span)]
+        out.append(int(info.max) + 1)
     m = mod if mod is not None else max(1, 2 * len(keys) - 1)
     for k in keys[:3]:
         for cand in (k + m, k - m, k + 1, k + m * 2):     # collides with a non-empty bucket / neighbours
